@@ -374,13 +374,33 @@ def origins(e, limit=400):
     out = []
     stack = [e]
     n = 0
+    tried = False
     while stack and n < limit:
         n += 1
-        x = peel(stack.pop())
+        x0 = stack.pop()
+        if not tried and any(y[0] == "call" and y[1].fn == "core::ops::try_trait::Try::branch" for y in walk(strip(x0))):
+            tried = True
+        x = peel(x0)
         if x[0] == "phi":
             stack.extend(x[3])
+        elif x[0] == "field" and isinstance(x[2], (int, str)) and str(x[2]).isdigit() and strip(x[1])[0] != "downcast" and n < limit - 50:
+            # `(a, b).0` where the tuple is what a helper / `?` produced on several paths: the component of each alternative
+            i = int(x[2])
+            for s_ in origins(x[1], 60):
+                if s_[0] == "agg" and s_[1].get("agg") == "tuple" and i < len(s_[2]):
+                    stack.append(s_[2][i])
+                elif s_[0] == "call" and s_[1].fn == "core::ops::try_trait::FromResidual::from_residual":
+                    tried = True
+                    out.append(s_)
+                else:
+                    out.append(("field", s_, x[2]))
         else:
             out.append(x)
+    if tried and len(out) > 1:
+        # the value of `X?` never comes from an error path: `from_residual(..)` alternatives of X are what the OTHER edge returns
+        keep = [o for o in out if not (o[0] == "call" and o[1].fn == "core::ops::try_trait::FromResidual::from_residual")]
+        if keep:
+            out = keep
     return out
 
 
